@@ -16,6 +16,9 @@ C14 driver.  Interactive line protocol (one reply per line):
   sol fail                numpy.linalg.solve raised LinAlgError   -> error <ncalls> <coords..>
   dump <id>               cache state                             -> <ndata> (<idx..> <bits>)* <ncoeff> (<cell idx..>)*
   fi <top> <padding> <v> <x0..xtop>        find_index                                              -> <int>
+  pure <id> <p..>         history-free `evalPure` of the object's Spec/Env at p (state not read, not changed); if the
+                          point is located and every stencil node returns: -> solve <n> <A> <b> (then send `sol`)
+                          else / after `sol`                               -> val <bits> 0 | raise 0 | error 0 | fraise 0
 -/
 
 abbrev Tbl := Std.HashMap (Nat × List UInt64) (Option Float)   -- `none`: the wrapped function raised there
@@ -36,6 +39,7 @@ structure DS where
   objs : Std.HashMap Nat Obj := {}
   pending : Option (Nat × List Float × List (List Float) × List Float) := none   -- id, point, A, b
   missing : Bool := false
+  pendingPure : Bool := false     -- the pending system belongs to a `pure` request
 
 def bitsOf (l : List Float) : List UInt64 := l.map Float.toBits
 
@@ -129,6 +133,51 @@ def evalObj (tbl : Tbl) (sol : List (List Float) → List Float → Option (Nat 
       | none => none
     (.d3 fid ax ay az nm nbe (if sys.isSome then { r.1 with coeffs := tabHead 64 r.1.coeffs } else r.1), r.2.1, r.2.2.map (fun x => [x.1, x.2.1, x.2.2]), sys)
 
+/-- `evalPure` of object `o` at `pt` with the given `solve` (the state of `o` is ignored); also the coordinates the
+specification reads (stencil nodes, or the point itself on pass-through) and the cell's system when it is built -/
+def pureObj (tbl : Tbl) (sol : List (List Float) → List Float → Option (Nat → Float)) (o : Obj) (pt : List Float) :
+    Out Float × List (List Float) × Option (List (List Float) × List Float) :=
+  match o with
+  | .d1 fid ax nm nbe _ =>
+    let E := env1 tbl fid nm
+    let S := spec1 (extWith sol) ax nm
+    let p := pt.getD 0 nanF
+    match S.locate p with
+    | none => (evalPure S E nbe p, if nbe then [[p]] else [], none)
+    | some c =>
+      let nodes := (S.stencil c).map (fun u => [ax.dom u])
+      let sys := if (S.stencil c).all (fun u => (E.f (S.coord u)).isSome) then
+          let vals := (S.stencil c).map (nodeVal S E)
+          some (system1 ax c (fun k => vals.getD k 0))
+        else none
+      (evalPure S E nbe p, nodes, sys)
+  | .d2 fid ax ay nm nbe _ =>
+    let E := env2 tbl fid nm
+    let S := spec2 (extWith sol) ax ay nm
+    let p := (pt.getD 0 nanF, pt.getD 1 nanF)
+    match S.locate p with
+    | none => (evalPure S E nbe p, if nbe then [[p.1, p.2]] else [], none)
+    | some c =>
+      let nodes := (S.stencil c).map (fun u => [ax.dom u.1, ay.dom u.2])
+      let sys := if (S.stencil c).all (fun u => (E.f (S.coord u)).isSome) then
+          let vals := (S.stencil c).map (nodeVal S E)
+          some (system2 ax ay c (fun a b => vals.getD (4 * a + b) 0))
+        else none
+      (evalPure S E nbe p, nodes, sys)
+  | .d3 fid ax ay az nm nbe _ =>
+    let E := env3 tbl fid nm
+    let S := spec3 (extWith sol) ax ay az nm
+    let p := (pt.getD 0 nanF, pt.getD 1 nanF, pt.getD 2 nanF)
+    match S.locate p with
+    | none => (evalPure S E nbe p, if nbe then [[p.1, p.2.1, p.2.2]] else [], none)
+    | some c =>
+      let nodes := (S.stencil c).map (fun u => [ax.dom u.1, ay.dom u.2.1, az.dom u.2.2])
+      let sys := if (S.stencil c).all (fun u => (E.f (S.coord u)).isSome) then
+          let vals := (S.stencil c).map (nodeVal S E)
+          some (system3 ax ay az c (fun a b cc => vals.getD (16 * a + 4 * b + cc) 0))
+        else none
+      (evalPure S E nbe p, nodes, sys)
+
 def fidOf : Obj → Nat
   | .d1 fid .. => fid
   | .d2 fid .. => fid
@@ -183,8 +232,20 @@ def step (s : DS) (ts : List String) : DS × String :=
         -- a new cell: ask for numpy.linalg.solve(A, b); state is committed by `sol`
         let miss := calls.filter (fun c => !known s.tbl (fidOf o) c)
         if !miss.isEmpty then (s, "missing " ++ fFs (miss.headD [])) else
-        ({ s with pending := some (pN id, p, A, b) }, s!"solve {b.length} {fFs A.flatten} {fFs b}")
+        ({ s with pending := some (pN id, p, A, b), pendingPure := false }, s!"solve {b.length} {fFs A.flatten} {fFs b}")
       | none => ({ s with objs := s.objs.insert (pN id) o' }, fmtOut out calls s.tbl (fidOf o))
+  | "pure" :: id :: pt =>
+    match s.objs.get? (pN id) with
+    | none => (s, "bad-id")
+    | some o =>
+      let p := pt.map pF
+      let (out, nodes, sys) := pureObj s.tbl zeroSol o p
+      let miss := nodes.filter (fun c => !known s.tbl (fidOf o) c)
+      if !miss.isEmpty then (s, "missing " ++ fFs (miss.headD [])) else
+      match sys with
+      | some (A, b) =>
+        ({ s with pending := some (pN id, p, A, b), pendingPure := true }, s!"solve {b.length} {fFs A.flatten} {fFs b}")
+      | none => (s, fmtOut out [] s.tbl (fidOf o))
   | "sol" :: cs =>
     match s.pending with
     | none => (s, "no-pending")
@@ -192,6 +253,10 @@ def step (s : DS) (ts : List String) : DS × String :=
       match s.objs.get? id with
       | none => (s, "bad-id")
       | some o =>
+        if s.pendingPure then
+          let (out, _, _) := pureObj s.tbl (if cs == ["fail"] then failSol else givenSol (cs.map pF)) o p
+          ({ s with pending := none, pendingPure := false }, fmtOut out [] s.tbl (fidOf o))
+        else
         let (o', out, calls, _) := evalObj s.tbl (if cs == ["fail"] then failSol else givenSol (cs.map pF)) o p
         ({ s with objs := s.objs.insert id o', pending := none }, fmtOut out calls s.tbl (fidOf o))
   | ["dump", id] =>
